@@ -33,6 +33,7 @@ for d in "$here"/seeded/*/; do
   [ -f "$d/patch.diff" ] || continue
   prop=$(python3 -c "import json;print(json.load(open('$d/meta.json'))['property'])")
   if [ -n "${SELFTEST_PROP:-}" ] && [ "$prop" != "$SELFTEST_PROP" ]; then continue; fi
+  if [ "$(python3 -c "import json;print(json.load(open('$d/meta.json')).get('known_miss',False))")" = "True" ]; then echo "SELFTEST seed $name: documented miss, not part of the must-fail corpus ($prop)"; continue; fi
   git -C "$tmp/wt" checkout -q -- . ; git -C "$tmp/wt" clean -fdq
   if ! git -C "$tmp/wt" apply "$d/patch.diff" 2>/dev/null; then echo "SELFTEST seed $name: patch does not apply (stale)"; fail=1; continue; fi
   out=$(GOVC_REPO="$tmp/wt" GOVC_TMP="$tmp/work" "$here/bin/govc" check -prop "$prop" -no-evidence -no-replay -verif "$here" 2>&1)
